@@ -1512,7 +1512,9 @@ func (x *explorer) store(st *state, fr *frame, addr, v *T, pos token.Pos) {
 		f := strings.TrimPrefix(addr.Name, "field:")
 		st.fields[obj.String()+"|"+f] = v
 		if obj.Op == "fresh" {
-			return // initialising a new object
+			// initialising a new object: not a write into existing state, but visible to rules
+			x.effect(st, fr, Effect{Kind: "fieldinit", Callee: f, Args: []*T{obj, v}, Pos: pos})
+			return
 		}
 		x.effect(st, fr, Effect{Kind: "fieldset", Callee: f, Args: []*T{obj, v}, Pos: pos})
 		return
